@@ -218,13 +218,9 @@ func (e *Engine) appendOp(st *State, dst *SliceV, src Value, x *ssa.Call) Value 
 	}
 	res := dst
 	if ln+add > cp {
-		ncap := 2 * cp
-		if ncap < ln+add {
-			ncap = ln + add
-		}
-		if ncap < 8 {
-			ncap = 8
-		}
+		// capacity growth as the gc runtime does it (growslice + malloc size classes), so that cap()
+		// and the aliasing of spare capacity are what a native run sees
+		ncap := goGrowCap(cp, ln+add, int(goSizes.Sizeof(et)))
 		ns := e.makeSlice(st, et, ln+add, ncap, e.pos(x))
 		for i := 0; i < ln; i++ {
 			st.store(e.elemPtr(ns, c64(i)), st.load(e.elemPtr(dst, c64(i))))
@@ -488,4 +484,48 @@ func (e *Engine) rangeNext(st *State, fr *frame, x *ssa.Next) []cont {
 	}
 	st.heap[it.Obj.ID] = c64(pos)
 	return done()
+}
+
+var goSizes = types.SizesFor("gc", "amd64")
+
+var sizeClasses = []int{8, 16, 24, 32, 48, 64, 80, 96, 112, 128, 144, 160, 176, 192, 208, 224, 240, 256, 288, 320, 352, 384, 416, 448, 480, 512, 576, 640, 704, 768, 896, 1024,
+	1152, 1280, 1408, 1536, 1792, 2048, 2304, 2688, 3072, 3200, 3456, 4096, 4864, 5120, 5376, 6144, 6528, 6784, 6912, 8192, 9472, 9728, 10240, 10880, 12288, 13568, 14336, 16384,
+	18432, 19072, 20480, 21760, 24576, 27264, 28672, 32768}
+
+// goGrowCap mirrors runtime.growslice of Go 1.2x: the new capacity for growing a slice of capacity
+// oldCap to at least newLen elements of elemSize bytes.
+func goGrowCap(oldCap, newLen, elemSize int) int {
+	newcap := oldCap
+	doublecap := newcap + newcap
+	if newLen > doublecap {
+		newcap = newLen
+	} else {
+		const threshold = 256
+		if oldCap < threshold {
+			newcap = doublecap
+		} else {
+			for 0 < newcap && newcap < newLen {
+				newcap += (newcap + 3*threshold) >> 2
+			}
+			if newcap <= 0 {
+				newcap = newLen
+			}
+		}
+	}
+	if elemSize <= 0 {
+		return newcap
+	}
+	mem := newcap * elemSize
+	rounded := mem
+	if mem <= 32768 {
+		for _, c := range sizeClasses {
+			if c >= mem {
+				rounded = c
+				break
+			}
+		}
+	} else {
+		rounded = (mem + 8191) &^ 8191
+	}
+	return rounded / elemSize
 }
